@@ -84,6 +84,8 @@ Sep(k, sty) == sty[1] \o <<P(k)>> \o sty[2]
 Substvar(e) == << Tk("DOLLAR", e, 0, "sv", 0, FALSE), Tk("L_CURLY", e, 0, "sv", 0, FALSE), Tk("IDENT", e, 0, "sv", 0, FALSE),
                   Tk("COLON", e, 0, "sv", 0, FALSE), Tk("IDENT", e, 0, "sv", 0, FALSE), Tk("R_CURLY", e, 0, "sv", 0, FALSE) >>
 
+\* a substitution variable without a colon ("${Newline}", "${Source-Version}")
+Substvar2(e) == << Tk("DOLLAR", e, 0, "sv", 0, FALSE), Tk("L_CURLY", e, 0, "sv", 0, FALSE), Tk("IDENT", e, 0, "sv", 0, FALSE), Tk("R_CURLY", e, 0, "sv", 0, FALSE) >>
 \* item: [k |-> "E", vs |-> Seq(v)] | [k |-> "S"] | [k |-> "0"] (empty entry)
 RECURSIVE AltToks(_,_,_,_,_)
 AltToks(vs, e, r, s, ps) ==
@@ -91,7 +93,7 @@ AltToks(vs, e, r, s, ps) ==
   ELSE (IF r > 1 THEN Sep("PIPE", ps) ELSE <<>>) \o RelToks(vs[r], e, r, s) \o AltToks(vs, e, r + 1, s, ps)
 ItemToks(it, e, s, ps) ==
   CASE it.k = "E" -> AltToks(it.vs, e, 1, s, ps)
-    [] it.k = "S" -> Substvar(e)
+    [] it.k = "S" -> IF it.vs = <<>> THEN Substvar(e) ELSE Substvar2(e)
     [] OTHER      -> <<>>
 RECURSIVE FieldToks(_,_,_,_,_)
 FieldToks(items, e, s, cs, ps) ==
@@ -153,6 +155,7 @@ MkCase(TT, items, allow) ==
 E1(v) == [k |-> "E", vs |-> <<v>>]
 E2(v, w) == [k |-> "E", vs |-> <<v, w>>]
 SV == [k |-> "S", vs |-> <<>>]
+SV2 == [k |-> "S", vs |-> <<0>>]      \* (vs # <<>> marks the colon-less form)
 E0 == [k |-> "0", vs |-> <<>>]
 DefC == << <<>>, <<W>> >>
 DefP == << <<W>>, <<W>> >>
@@ -187,8 +190,8 @@ MCInit ==
        LET items == <<E1(v), E0, E1(Simple)>> IN
        InitWith(MkCase(Field(items, 1, cs, DefP, lead, FALSE, trail), items, FALSE))
   \* substitution variables (only with allow_substvar)
-  \/ \E v \in FewV, cs \in CommaStyles, pos \in 1..3 :
-       LET items == IF pos = 1 THEN <<SV, E1(v)>> ELSE IF pos = 2 THEN <<E1(v), SV>> ELSE <<E1(v), SV, E2(Simple, v)>> IN
+  \/ \E v \in FewV, cs \in CommaStyles, pos \in 1..4 :
+       LET items == IF pos = 1 THEN <<SV, E1(v)>> ELSE IF pos = 2 THEN <<E1(v), SV>> ELSE IF pos = 3 THEN <<E1(v), SV, E2(Simple, v)>> ELSE <<SV2, E1(v), SV2>> IN
        InitWith(MkCase(Field(items, 1, cs, DefP, <<>>, FALSE, <<>>), items, TRUE))
   \* the same alternative twice in one entry (dup: the harness gives both the same texts)
   \/ \E v \in { Simple, RV(FALSE, 1, TRUE, FALSE, <<>>, <<>>), RV(TRUE, 0, FALSE, FALSE, <<>>, <<>>) }, w \in FewV, third \in BOOLEAN :
